@@ -14,6 +14,11 @@ PROP = dict(
         "Shangrla.C04.raire_true", "Shangrla.C04.raire_sufficient", "Shangrla.C04.raire_empty_iff",
         "Shangrla.C04.raire_empty_witness", "Shangrla.C04.wrong_winner_empty", "Shangrla.C04.raire_no_exception",
         "Shangrla.C04.raire_terminates", "Shangrla.C04.raire_correct",
+        # the same for every `agap` test (the early exit of raire.py L158-163)
+        "Shangrla.Raire.mainLoopG_spec", "Shangrla.Raire.exitG_all_finite", "Shangrla.Raire.computeG_spec",
+        "Shangrla.C04.raire_true_gap", "Shangrla.C04.raire_sufficient_gap", "Shangrla.C04.raire_empty_iff_gap",
+        "Shangrla.C04.wrong_winner_empty_gap", "Shangrla.C04.raire_no_exception_gap", "Shangrla.C04.raire_terminates_gap",
+        "Shangrla.C04.raire_correct_gap", "Shangrla.C04.noGap_is_default",
     ],
     groups={"raire": (3000, 120000)},
     design_ref="DESIGN.md section 5, C04; Appendix F",
@@ -22,7 +27,9 @@ PROP = dict(
         "that no exception exit is reached, so the other theorems (stated for any fuel with a Res.ok result) apply; the "
         "driver runs with fuel 2000000 and the correspondence check reports any fuel exhaustion",
         "candidates duplicate-free and at least two; difficulty comparison a lawful total preorder (floats without NaN); "
-        "agap = 0; the -10 start of the lower bound is below every difficulty",
+        "the -10 start of the lower bound is below every difficulty; the `_gap` theorems hold for every agap test that is "
+        "false when the largest estimate on the frontier is inf (GapOK: true of `mx - lb <= agap` for every finite agap); "
+        "the unsuffixed theorems are the agap = 0 instance; log=True only prints (correspondence: same result required)",
         "wrong_winner_empty / valid_order_not_excluded: ballots well formed (no candidate and no position twice)",
     ],
 )
